@@ -52,6 +52,7 @@ import PyhamModel.Lemmas.Iso
 import PyhamModel.Lemmas.IsoCounts
 import PyhamModel.Lemmas.IsoWF
 import PyhamModel.Lemmas.HistoryProfile
+import PyhamModel.Lemmas.HistoryInvariance
 import PyhamModel.Lemmas.FilterAbsent
 import PyhamModel.Lemmas.Interleave
 namespace Pyham.Props
@@ -360,6 +361,40 @@ theorem C09_profile_numbers_are_the_history (D : Dataset) (hc : D.Consistent) :
       on (profileFullAt H (i :: u)).duplication =
         (D.fams.map fun f => copiesInto (i :: u) f.1 f.2 - eventsInto (i :: u) f.1 f.2).sum :=
   Pyham.C09_profile_numbers_are_the_history D hc
+
+/-- **the whole profile entry of an ancestral node is a function of the histories**: genes = lineages crossing the node,
+    gained = families that start there, duplicated = copies placed on the branch, duplication events = sum of (copies - 1);
+    retained and lost are then fixed by the two balance equations -/
+theorem C09_profile_from_histories (D : Dataset) (hc : D.Consistent) :
+    ∃ H, load D.T D.nm D.file = .ok H ∧ ∀ i u, (i :: u) ∈ H.tree.allTaxa → D.T.isInternalAt (i :: u) = true →
+      ∃ ret lost,
+        profileFullAt H (i :: u) =
+          { tx := i :: u, nbr := (D.fams.map fun f => lineagesAt (i :: u) f.1 f.2).sum,
+            dupl := some ((D.fams.map fun f => copiesInto (i :: u) f.1 f.2).sum),
+            lost := some lost,
+            gain := some ((D.fams.filter fun f => f.1 == i :: u).length),
+            retained := some ret,
+            duplication := some ((D.fams.map fun f => copiesInto (i :: u) f.1 f.2 - eventsInto (i :: u) f.1 f.2).sum),
+            nbrEvents := some ((D.fams.map fun f => copiesInto (i :: u) f.1 f.2 - eventsInto (i :: u) f.1 f.2).sum +
+              lost + (D.fams.filter fun f => f.1 == i :: u).length) } ∧
+        (D.fams.map fun f => lineagesAt (i :: u) f.1 f.2).sum =
+          ret + (D.fams.map fun f => copiesInto (i :: u) f.1 f.2).sum + (D.fams.filter fun f => f.1 == i :: u).length ∧
+        (D.fams.map fun f => lineagesAt (i :: u) f.1 f.2).sum + lost =
+          (D.fams.map fun f => lineagesAt u f.1 f.2).sum + (D.fams.filter fun f => f.1 == i :: u).length +
+            (D.fams.map fun f => copiesInto (i :: u) f.1 f.2 - eventsInto (i :: u) f.1 f.2).sum :=
+  Pyham.C09_profile_from_histories D hc
+
+/-- **C14 for the tree profile, whole files**: two consistent datasets over one species tree whose families are spellings of
+    the same histories -- members, copies and sub-branches in any order, other ids, with or without labels and annotations,
+    levels written or elided, either naming mode -- have the same whole-dataset tree profile entry at every ancestral node -/
+theorem C14_profile_same_for_same_histories (D D' : Dataset) (hc : D.Consistent) (hc' : D'.Consistent)
+    (hT : D.T = D'.T) (hlen : D.fams.length = D'.fams.length)
+    (hs : ∀ i (h1 : i < D.fams.length) (h2 : i < D'.fams.length),
+        (D.fams[i]).1 = (D'.fams[i]).1 ∧ SameL (D.fams[i]).2 (D'.fams[i]).2) :
+    ∃ H H', load D.T D.nm D.file = .ok H ∧ load D'.T D'.nm D'.file = .ok H' ∧
+      ∀ i u, (i :: u) ∈ D.T.allTaxa → D.T.isInternalAt (i :: u) = true →
+        profileFullAt H (i :: u) = profileFullAt H' (i :: u) :=
+  Pyham.C14_profile_same_for_same_histories D D' hc hc' hT hlen hs
 
 /-- ... and family by family, for whatever realises a well-formed history -/
 theorem C10_family_profile_is_the_history (T : STree) (q : Taxon) (l : SL) (top : Node) (hr : Realises q l top)
